@@ -217,6 +217,18 @@ def check_cut(folder, files, rules, default, facts, probes, stats, label):
         pages = {}
         for node, lru in t.pages_iter():
             pages[lru] = bool(node.is_crawled())
+        # the id counter of a reopened index must not be behind the ids it already holds (ids chosen by
+        # the caller, which the histories take from 5000 up, are not the index's business)
+        try:
+            from ..rawdecode import decode as _decode
+            a_, b_ = M.store_bytes(t)
+            dd = _decode(a_, b_, tolerate_truncated_tail=True)
+            own = [v for v in dd.we.values() if v < 5000]
+            stats["C18_id_counter_checks"] += 1
+            if own and dd.last_id is not None and dd.last_id < max(own):
+                return D(["C18"], "id-counter-behind-ids-in-use-on-reopened-index", cut=label, counter=dd.last_id, highest_id_in_trie=max(own))
+        except Exception:
+            stats["C18_id_counter_check_errors"] += 1
         # what the reopened index counts must be what it enumerates ("opens consistent")
         try:
             cp, cc = t.count_pages(), t.count_crawled_pages()
